@@ -70,6 +70,8 @@ func (f c14fault) apply(env *Env) {
 		env.Reader.FailAt = f.k
 	case "reader+data":
 		env.Reader.FailAt, env.Reader.WithData = f.k, true
+	case "reader-once":
+		env.Reader.FailAt, env.Reader.Once = f.k, true
 	case "writer":
 		env.Writer.FailAt = f.k
 	case "writer-torn":
@@ -84,7 +86,7 @@ func (f c14fault) apply(env *Env) {
 	env.Writer.ErrVariant = f.k / 2
 }
 
-var c14kinds = []string{"reader", "reader+data", "writer", "writer-torn", "writer-short", "writer-once", "writer-full"}
+var c14kinds = []string{"reader", "reader+data", "reader-once", "writer", "writer-torn", "writer-short", "writer-once", "writer-full"}
 
 func caseC14(c *Ctx) {
 	massive := pickArm(c, []string{"simple", "massive"}, 5, 5) == "massive"
@@ -117,10 +119,11 @@ func caseC14(c *Ctx) {
 	}()
 	rp := readerPlanFor(c) // drawn once: the enumeration below must not consume the stream
 	mkEnvSalt := uint64(0)
+	flushW := c.Chance(1, 4)
 	mkEnv := func() *Env {
 		r := rp
 		r.ChunkSeed = mix(rp.ChunkSeed, mkEnvSalt)
-		e := &Env{Doc: doc, Reader: r, Writer: noWriterFault, Cb: noCbFault}
+		e := &Env{Doc: doc, Reader: r, Writer: noWriterFault, Cb: noCbFault, FlushWriter: flushW}
 		if op.FromRoot {
 			e.Tree = forest[0]
 		}
@@ -225,7 +228,7 @@ func caseC14(c *Ctx) {
 		} else {
 			if !op.FromRoot {
 				for k := 0; k <= L; k++ {
-					faults = append(faults, c14fault{"reader", k}, c14fault{"reader+data", k})
+					faults = append(faults, c14fault{"reader", k}, c14fault{"reader+data", k}, c14fault{"reader-once", k})
 				}
 			}
 			for j := 0; j < W; j++ {
